@@ -111,7 +111,7 @@ def g_net(r, deterministic=False, small=False, poisson_ok=True):
                         probs[r.randrange(n)] = 0.0
                     rs.append(["prob", probs])
                 elif y < 0.8 and not deterministic and not any(s == "inf" for s in servers):
-                    rs.append(["jsq", r.sample(range(1, n + 1), r.randint(1, n)), r.choice(["random", "order"])])
+                    rs.append([r.choice(["jsq", "lb"]), r.sample(range(1, n + 1), r.randint(1, n)), r.choice(["random", "order"])])
                 else:
                     rs.append(["leave"])
             routing[c] = ["net", rs]
@@ -123,8 +123,12 @@ def g_net(r, deterministic=False, small=False, poisson_ok=True):
                     row[r.randrange(n)] = 0.0
                 M.append(row)
             routing[c] = ["matrix", M]
-        else:
+        elif x < 0.9 or deterministic or any(s == "inf" for s in servers):
             routing[c] = ["pb", [[r.randint(1, n) for _ in range(r.randint(0, 3))] for _ in range(3)]]
+        else:
+            # flexible process-based: sets of nodes to visit, the next one chosen by a JSQ / LB router built on the fly
+            routing[c] = ["fpb", [[sorted(r.sample(range(1, n + 1), r.randint(1, n))) for _ in range(r.randint(0, 3))] for _ in range(3)],
+                          r.choice(["any", "all"]), r.choice(["jsq", "lb", "random"])]
     N["routing"] = routing
     kinds = set(v[0] for v in routing.values())
     N["prio"] = None
@@ -140,12 +144,12 @@ def g_net(r, deterministic=False, small=False, poisson_ok=True):
         N["ren"] = {c: [gd(2.0) if r.random() < 0.6 else None for _ in range(n)] for c in classes}
     N["ccm"] = None
     N["cct"] = None
-    if k > 1 and "pb" not in kinds and r.random() < 0.3:
+    if k > 1 and not kinds & {"pb", "fpb"} and r.random() < 0.3:
         if deterministic:
             N["ccm"] = [{c: {d: (1.0 if d == classes[(j + 1) % k] else 0.0) for d in classes} for j, c in enumerate(classes)} for _ in range(n)]
         else:
             N["ccm"] = [{c: {d: (1.0 / k) for d in classes} for c in classes} for _ in range(n)]
-    if k > 1 and "pb" not in kinds and r.random() < 0.2:
+    if k > 1 and not kinds & {"pb", "fpb"} and r.random() < 0.2:
         N["cct"] = {classes[0]: {classes[1]: gd(2.0)}}
     N["baulk"] = None
     if not deterministic and r.random() < 0.15:
@@ -264,9 +268,14 @@ def build_net(N, abort_after=None):
                     rs.append(R.Probabilistic(destinations=list(range(1, n + 1)), probs=list(x[1])))
                 elif x[0] == "jsq":
                     rs.append(R.JoinShortestQueue(destinations=list(x[1]), tie_break=x[2]))
+                elif x[0] == "lb":
+                    rs.append(R.LoadBalancing(destinations=list(x[1]), tie_break=x[2]))
                 else:
                     rs.append(R.Leave())
             routing[c] = R.NetworkRouting(routers=rs)
+        elif rt[0] == "fpb":
+            routes = rt[1]
+            routing[c] = R.FlexibleProcessBased(lambda ind, sim, routes=routes: [list(st) for st in routes[ind.id_number % len(routes)]], rule=rt[2], choice=rt[3])
         else:
             routes = rt[1]
             routing[c] = R.ProcessBased(lambda ind, sim, routes=routes: list(routes[ind.id_number % len(routes)]))
